@@ -606,6 +606,9 @@ impl Scenario for ReserveConc {
                         6 => scn_uni::ROp::SendNewest,
                         7 | 8 => {
                             if movable && !single {
+                                // (`TryCancelNewestOnce` -- one cancel attempt among several threads -- is implemented but not
+                                // generated: "reverse reservation order" is then not under one thread's control, i.e. outside the
+                                // documented use; on the unchanged tree such runs already end with publishers waiting forever)
                                 scn_uni::ROp::SendOldest
                             } else {
                                 scn_uni::ROp::CancelNewest
